@@ -19,6 +19,7 @@ import (
 	"fmt"
 
 	"golang.org/x/net/http2"
+	"golang.org/x/net/http2/hpack"
 )
 
 // queuedFrame stores frames that belong to a stream and need to be kept in order. The need for
@@ -83,7 +84,9 @@ type queuedHeaderFrame struct {
 	streamID  uint32
 	endStream bool
 	priority  http2.PriorityParam
-	chunks    [][]byte
+	headers   []hpack.HeaderField
+	// relay encodes headers when the frame is sent.
+	relay *relay
 }
 
 func (f *queuedHeaderFrame) StreamID() uint32 {
@@ -95,19 +98,23 @@ func (*queuedHeaderFrame) flowControlSize() int {
 }
 
 func (f *queuedHeaderFrame) send(dest *http2.Framer) error {
+	chunks, err := f.relay.headerChunks(f.headers, f.priority)
+	if err != nil {
+		return err
+	}
 	if err := dest.WriteHeaders(http2.HeadersFrameParam{
 		StreamID:      f.streamID,
-		BlockFragment: f.chunks[0],
+		BlockFragment: chunks[0],
 		EndStream:     f.endStream,
-		EndHeaders:    len(f.chunks) <= 1,
+		EndHeaders:    len(chunks) <= 1,
 		PadLength:     0,
 		Priority:      f.priority,
 	}); err != nil {
 		return fmt.Errorf("sending header %v: %w", f, err)
 	}
-	for i := 1; i < len(f.chunks); i++ {
-		headersEnded := i == len(f.chunks)-1
-		if err := dest.WriteContinuation(f.streamID, headersEnded, f.chunks[i]); err != nil {
+	for i := 1; i < len(chunks); i++ {
+		headersEnded := i == len(chunks)-1
+		if err := dest.WriteContinuation(f.streamID, headersEnded, chunks[i]); err != nil {
 			return fmt.Errorf("sending header continuations %v: %w", f, err)
 		}
 	}
@@ -117,21 +124,16 @@ func (f *queuedHeaderFrame) send(dest *http2.Framer) error {
 func (f *queuedHeaderFrame) String() string {
 	var buf bytes.Buffer // strings.Builder is not available on App Engine.
 	fmt.Fprintf(&buf, "header[id=%d, endStream=%t", f.streamID, f.endStream)
-	fmt.Fprintf(&buf, ", priority=%v, chunk lengths=[", f.priority)
-	for i, c := range f.chunks {
-		if i > 0 {
-			fmt.Fprintf(&buf, ",")
-		}
-		fmt.Fprintf(&buf, "%d", len(c))
-	}
-	fmt.Fprintf(&buf, "]]")
+	fmt.Fprintf(&buf, ", priority=%v, fields=%d]", f.priority, len(f.headers))
 	return buf.String()
 }
 
 type queuedPushPromiseFrame struct {
 	streamID  uint32
 	promiseID uint32
-	chunks    [][]byte
+	headers   []hpack.HeaderField
+	// relay encodes headers when the frame is sent.
+	relay *relay
 }
 
 func (f *queuedPushPromiseFrame) StreamID() uint32 {
@@ -143,18 +145,22 @@ func (*queuedPushPromiseFrame) flowControlSize() int {
 }
 
 func (f *queuedPushPromiseFrame) send(dest *http2.Framer) error {
+	chunks, err := f.relay.pushPromiseChunks(f.headers)
+	if err != nil {
+		return err
+	}
 	if err := dest.WritePushPromise(http2.PushPromiseParam{
 		StreamID:      f.streamID,
 		PromiseID:     f.promiseID,
-		BlockFragment: f.chunks[0],
-		EndHeaders:    len(f.chunks) <= 1,
+		BlockFragment: chunks[0],
+		EndHeaders:    len(chunks) <= 1,
 		PadLength:     0,
 	}); err != nil {
 		return fmt.Errorf("sending push promise %v: %w", f, err)
 	}
-	for i := 1; i < len(f.chunks); i++ {
-		headersEnded := i == len(f.chunks)-1
-		if err := dest.WriteContinuation(f.streamID, headersEnded, f.chunks[i]); err != nil {
+	for i := 1; i < len(chunks); i++ {
+		headersEnded := i == len(chunks)-1
+		if err := dest.WriteContinuation(f.streamID, headersEnded, chunks[i]); err != nil {
 			return fmt.Errorf("sending push promise continuations %v: %w", f, err)
 		}
 	}
@@ -163,15 +169,7 @@ func (f *queuedPushPromiseFrame) send(dest *http2.Framer) error {
 
 func (f *queuedPushPromiseFrame) String() string {
 	var buf bytes.Buffer
-	fmt.Fprintf(&buf, "push promise[streamID=%d, promiseID= %d", f.streamID, f.promiseID)
-	fmt.Fprintf(&buf, ", chunk lengths=[")
-	for i, c := range f.chunks {
-		if i > 0 {
-			fmt.Fprintf(&buf, ",")
-		}
-		fmt.Fprintf(&buf, "%d", len(c))
-	}
-	fmt.Fprintf(&buf, "]]")
+	fmt.Fprintf(&buf, "push promise[streamID=%d, promiseID= %d, fields=%d]", f.streamID, f.promiseID, len(f.headers))
 	return buf.String()
 }
 
